@@ -8,7 +8,7 @@ CONSTANTS
   Fills <- BatchFills
   Alphabet <- BatchAlphabet
   Resizes <- NoResize
-  MaxDepth = 5
+  MaxDepth = 4
   Emit = TRUE
   CheckDump = FALSE
   ExcuseKnown = TRUE
